@@ -3,6 +3,7 @@ package nodes
 import (
 	"fmt"
 	"os"
+	"sort"
 	"time"
 
 	"github.com/pokt-network/pocket-core/x/nodes/keeper"
@@ -93,7 +94,15 @@ func InitGenesis(ctx sdk.Ctx, keeper keeper.Keeper, supplyKeeper types.AuthKeepe
 		res = keeper.UpdateTendermintValidators(ctx)
 	}
 	// update signing information from genesis state
-	for addr, info := range data.SigningInfos {
+	// Go randomises map iteration and the order in which new keys are written shapes the
+	// IAVL tree (and so the first app hash): visit both genesis maps in key order.
+	signingInfoAddrs := make([]string, 0, len(data.SigningInfos))
+	for addr := range data.SigningInfos {
+		signingInfoAddrs = append(signingInfoAddrs, addr)
+	}
+	sort.Strings(signingInfoAddrs)
+	for _, addr := range signingInfoAddrs {
+		info := data.SigningInfos[addr]
 		address, err := sdk.AddressFromHex(addr)
 		if err != nil {
 			keeper.Logger(ctx).Error(fmt.Sprintf("unable to convert address from hex in genesis signing info for addr: %s err: %v", addr, err))
@@ -102,7 +111,13 @@ func InitGenesis(ctx sdk.Ctx, keeper keeper.Keeper, supplyKeeper types.AuthKeepe
 		keeper.SetValidatorSigningInfo(ctx, address, info)
 	}
 	// update missed block information from genesis state
-	for addr, array := range data.MissedBlocks {
+	missedBlockAddrs := make([]string, 0, len(data.MissedBlocks))
+	for addr := range data.MissedBlocks {
+		missedBlockAddrs = append(missedBlockAddrs, addr)
+	}
+	sort.Strings(missedBlockAddrs)
+	for _, addr := range missedBlockAddrs {
+		array := data.MissedBlocks[addr]
 		address, err := sdk.AddressFromHex(addr)
 		if err != nil {
 			keeper.Logger(ctx).Error(fmt.Sprintf("unable to convert address from hex in genesis missed blocks for addr: %s err: %v", addr, err))
